@@ -180,6 +180,16 @@ def _decide(args, P, seed, scratch, t0):
                 if unchanged:
                     undecided.append('%s: %s failed although every extracted item is byte-identical to the baseline (solver instability)' % (r.unit, fl['obligation']))
                     continue
+                ni = [f for f in r.functions if f.get('needs_input') and f['name'] == fl['fn'] and f['gen_range'][0] <= fl.get('gen_offset', -1) < f['gen_range'][1]]
+                if ni:
+                    try:
+                        cex = vreplay.search_unit(REPO, scratch, r.unit, seed)
+                    except Exception as e:
+                        cex = None
+                    if not cex:
+                        undecided.append('%s: %s failed, but this contract is stronger than the property and no failing input was found on the real code' % (r.unit, fl['obligation']))
+                        continue
+                    fl = dict(fl, failing_input=cex)
                 failures.append(fl)
         n_ob = r.verified + r.errors
         obligations += n_ob
